@@ -747,7 +747,7 @@ class C09(Prop):
         'immutable_reach', 'cache_correct', 'no_shared_mutable', 'immutable_setattr_rejected',
         'immutable_delattr_rejected', 'sighash_preserves_heap', 'verify_preserves_heap', 'sighash_keeps_objects',
         'verify_keeps_objects', 'value_frame', 'value_frame_run', 'copy_unaffected',
-        'target_refines', 'target_refines_none')]
+        'target_refines', 'target_refines_none', 'heap_ident_eq_value', 'heap_pyhash_eq_value')]
     anchors = [('bitcoin/core/serialize.py', q) for q in (
         'Serializable.GetHash', 'Serializable.__eq__', 'Serializable.__hash__',
         'ImmutableSerializable.__setattr__', 'ImmutableSerializable.__delattr__', 'ImmutableSerializable.GetHash',
